@@ -135,11 +135,18 @@ struct ItemCfg {
 	/// closure unit: `closure N in fn X` emits the closure as a named fn with this header
 	#[serde(default)]
 	closure_as_fn: Option<String>,
+	/// emit functions as contract stubs (external_body + contract); set by `include`
+	#[serde(default)]
+	stub: bool,
+	#[serde(default)]
+	stub_home: Option<String>,
 }
 
 #[derive(Deserialize, Clone, Debug)]
 struct UnitCfg {
+	#[serde(default)]
 	unit: String,
+	#[serde(default)]
 	properties: Vec<String>,
 	#[serde(default)]
 	prelude: Vec<String>,
@@ -149,6 +156,28 @@ struct UnitCfg {
 	tail: String,
 	#[serde(default)]
 	item: Vec<ItemCfg>,
+	#[serde(default)]
+	include: Vec<IncludeRef>,
+	/// (include files) the unit in which the contracts of this file are proved
+	#[serde(default)]
+	home: Option<String>,
+}
+
+#[derive(Deserialize, Clone, Debug)]
+struct IncludeRef {
+	file: String,
+	/// true (default): functions are emitted as contract stubs (external_body + the same contract)
+	#[serde(default = "default_true")]
+	stub: bool,
+	/// restrict to these item paths
+	#[serde(default)]
+	only: Option<Vec<String>>,
+	/// drop these item paths
+	#[serde(default)]
+	except: Vec<String>,
+}
+fn default_true() -> bool {
+	true
 }
 
 impl Clause {
@@ -752,6 +781,7 @@ fn parse_sel(s: &str) -> Vec<String> {
 struct Ctx<'a> {
 	mode: &'a str,
 	canary: bool,
+	canary_fns: Option<Vec<String>>,
 	out: Out,
 	rules: BTreeMap<String, usize>,
 	dropped_calls: Vec<String>,
@@ -846,6 +876,7 @@ fn fn_edits(
 	whole: (usize, usize),
 	edits: &mut Vec<Edit>,
 	in_trait_impl: bool,
+	stub: Option<String>,
 ) {
 	let mark_base = ctx.out.marks.len();
 	let mut v = FnVisitor {
@@ -894,8 +925,11 @@ fn fn_edits(
 	for a in &cfg.attrs {
 		attr_text.push_str(&format!("#[{}]\n", a));
 	}
+	if let Some(h) = &stub {
+		attr_text.push_str(&format!("// CONTRACT-STUB: body not in this unit; contract proved in unit `{}`\n#[verifier::external_body]\n", h));
+	}
 	if !attr_text.is_empty() {
-		v.push(whole.0, whole.0, vec![Part::Text(attr_text)], "A5");
+		v.push(whole.0, whole.0, vec![Part::Text(attr_text)], if stub.is_some() { "STUB" } else { "A5" });
 	}
 	// A1 result name
 	let resname = cfg.ret.clone().unwrap_or_else(|| "res".to_string());
@@ -921,7 +955,7 @@ fn fn_edits(
 		die(&format!("{}: requires on a trait impl method is not allowed", name));
 	}
 	let mut ens = cfg.ensures.clone();
-	if ctx.canary && !cfg.no_canary {
+	if ctx.canary && !cfg.no_canary && stub.is_none() && ctx.canary_fns.as_ref().map(|v| v.iter().any(|x| x == name)).unwrap_or(true) {
 		ens.push(Clause::Full {
 			label: Some("__canary".to_string()),
 			props: None,
@@ -936,10 +970,14 @@ fn fn_edits(
 	if !parts.is_empty() {
 		v.push(bs, bs, parts, "A1");
 	}
-	v.visit_block(block);
+	if stub.is_some() {
+		v.edits.push(Edit { start: bs, end: be, parts: vec![Part::Text("{ unimplemented!() }".to_string())], rule: "STUB".into(), seq: usize::MAX / 2 });
+	} else {
+		v.visit_block(block);
+	}
 
 	// A4 proof insertions
-	for p in &cfg.proofs {
+	for p in cfg.proofs.iter().filter(|_| stub.is_none()) {
 		if let Some(m) = &p.mode {
 			if m != ctx.mode {
 				continue;
@@ -991,29 +1029,31 @@ fn fn_edits(
 		v.push(pos, pos, vec![Part::Text(format!("\n{}\n", t))], "A4");
 	}
 	// check every configured loop / closure ordinal exists
-	for l in &cfg.loops {
+	for l in cfg.loops.iter().filter(|_| stub.is_none()) {
 		if l.ordinal == 0 || l.ordinal > v.loop_ord {
 			die(&format!("{}: loop ordinal {} not found (fn has {})", name, l.ordinal, v.loop_ord));
 		}
 	}
-	for c in &cfg.closures {
+	for c in cfg.closures.iter().filter(|_| stub.is_none()) {
 		if c.ordinal == 0 || c.ordinal > v.closure_ord {
 			die(&format!("{}: closure ordinal {} not found (fn has {})", name, c.ordinal, v.closure_ord));
 		}
 	}
 	let mut seq = v.seq + 1;
 	let mut rules = v.rules.clone();
-	let mut all_reps = item_reps.to_vec();
-	all_reps.extend(cfg.replace.iter().cloned());
+	let _ = item_reps;
+	let all_reps = cfg.replace.clone();
 	let mut es = v.edits.clone();
-	apply_replaces(src, whole.0, whole.1, &all_reps, &mut es, &mut rules, &mut seq);
+	if stub.is_none() {
+		apply_replaces(src, whole.0, whole.1, &all_reps, &mut es, &mut rules, &mut seq);
+	}
 	for (k, n) in rules {
 		*ctx.rules.entry(k).or_insert(0) += n;
 	}
 	ctx.dropped_calls.extend(v.dropped_calls.iter().cloned());
 	ctx.out.marks.extend(v.marks.into_iter());
 	ctx.fn_meta.push(json!({"name": name, "loops": v.loop_ord, "closures": v.closure_ord,
-		"safety_props": cfg.safety_props, "src_range": [whole.0, whole.1]}));
+		"safety_props": cfg.safety_props, "src_range": [whole.0, whole.1], "stub": stub}));
 	edits.extend(es);
 }
 
@@ -1040,6 +1080,7 @@ fn main() {
 	let mut meta_path = String::new();
 	let mut mode = "full".to_string();
 	let mut canary = false;
+	let mut canary_fns: Option<Vec<String>> = None;
 	let mut prelude_dir = "/verif/prelude".to_string();
 	let mut i = 1;
 	while i < args.len() {
@@ -1069,16 +1110,64 @@ fn main() {
 				i += 1
 			}
 			"--canary" => canary = true,
+			"--canary-fns" => {
+				canary = true;
+				canary_fns = Some(args[i + 1].split(',').map(|x| x.to_string()).collect());
+				i += 1
+			}
 			x => die(&format!("unknown arg {}", x)),
 		}
 		i += 1;
 	}
 	let cfg_text = std::fs::read_to_string(&unit_path).unwrap_or_else(|e| die(&format!("{}: {}", unit_path, e)));
-	let cfg: UnitCfg = toml::from_str(&cfg_text).unwrap_or_else(|e| die(&format!("{}: {}", unit_path, e)));
+	let mut cfg: UnitCfg = toml::from_str(&cfg_text).unwrap_or_else(|e| die(&format!("{}: {}", unit_path, e)));
+	{
+		let dir = std::path::Path::new(&unit_path).parent().unwrap().to_path_buf();
+		let mut inc_items = vec![];
+		let mut inc_spec = String::new();
+		let mut inc_prelude: Vec<String> = vec![];
+		for inc in cfg.include.clone() {
+			let ip = dir.join("inc").join(format!("{}.toml", inc.file));
+			let t = std::fs::read_to_string(&ip).unwrap_or_else(|e| die(&format!("{}: {}", ip.display(), e)));
+			let ic: UnitCfg = toml::from_str(&t).unwrap_or_else(|e| die(&format!("{}: {}", ip.display(), e)));
+			for p in ic.prelude {
+				if !inc_prelude.contains(&p) && !cfg.prelude.contains(&p) {
+					inc_prelude.push(p);
+				}
+			}
+			if !ic.spec.is_empty() {
+				inc_spec.push_str(&format!("// ---- spec of include `{}`\n", inc.file));
+				inc_spec.push_str(&ic.spec);
+				inc_spec.push('\n');
+			}
+			for mut it in ic.item {
+				if let Some(only) = &inc.only {
+					if !only.contains(&it.path) {
+						continue;
+					}
+				}
+				if inc.except.contains(&it.path) {
+					continue;
+				}
+				if inc.stub {
+					it.stub = true;
+					it.stub_home = Some(ic.home.clone().unwrap_or_else(|| inc.file.clone()));
+				}
+				inc_items.push(it);
+			}
+		}
+		let mut pl = cfg.prelude.clone();
+		pl.extend(inc_prelude);
+		cfg.prelude = pl;
+		cfg.spec = format!("{}{}", inc_spec, cfg.spec);
+		inc_items.extend(cfg.item.clone());
+		cfg.item = inc_items;
+	}
 
 	let mut ctx = Ctx {
 		mode: &mode,
 		canary,
+		canary_fns: canary_fns.clone(),
 		out: Out {
 			buf: String::new(),
 			segs: vec![],
@@ -1093,7 +1182,7 @@ fn main() {
 		fn_meta: vec![],
 	};
 	ctx.out.buf.push_str(&format!(
-		"// GENERATED by /verif/tools/vx from {} (mode={}{}) — do not edit\n#![allow(unused)]\nuse vstd::prelude::*;\nverus! {{\n",
+		"// GENERATED by /verif/tools/vx from {} (mode={}{}) — do not edit\n#![allow(unused)]\nuse vstd::prelude::*;\nuse std::collections::HashMap;\nuse std::collections::HashSet;\nverus! {{\n",
 		unit_path,
 		mode,
 		if canary { ", canary" } else { "" }
@@ -1151,7 +1240,8 @@ fn main() {
 				src_span = whole;
 				let name = f.sig.ident.to_string();
 				let fc = it.fns.get(&name).cloned().unwrap_or_default();
-				fn_edits(&mut ctx, src, &name, &f.attrs, &f.sig, &f.block, &fc, &it.replace, whole, &mut edits, false);
+				let stub = if it.stub { Some(it.stub_home.clone().unwrap_or_default()) } else { None };
+				fn_edits(&mut ctx, src, &name, &f.attrs, &f.sig, &f.block, &fc, &it.replace, whole, &mut edits, false, stub);
 				ranges.push(whole);
 			}
 			Found::Impl(im, sel) => {
@@ -1180,7 +1270,8 @@ fn main() {
 							found_names.push(name.clone());
 							let w = br(f.span());
 							let fc = it.fns.get(&name).cloned().unwrap_or_default();
-							fn_edits(&mut ctx, src, &name, &f.attrs, &f.sig, &f.block, &fc, &it.replace, w, &mut edits, im.trait_.is_some());
+							let stub = if it.stub { Some(it.stub_home.clone().unwrap_or_default()) } else { None };
+							fn_edits(&mut ctx, src, &name, &f.attrs, &f.sig, &f.block, &fc, &it.replace, w, &mut edits, im.trait_.is_some(), stub);
 							ranges.push(w);
 						}
 						syn::ImplItem::Type(t) if sel.is_none() => ranges.push(br(t.span())),
@@ -1301,7 +1392,8 @@ fn main() {
 				ranges.push(whole);
 			}
 		}
-		if !matches!(find_item(&file.items, &it.path), Some(Found::Fn(_)) | Some(Found::Impl(..))) {
+		if !it.stub || !matches!(find_item(&file.items, &it.path), Some(Found::Fn(_)) | Some(Found::Impl(..))) {
+			seq += 1_000_000;
 			apply_replaces(src, src_span.0, src_span.1, &it.replace, &mut edits, &mut ctx.rules, &mut seq);
 		}
 		ctx.out.buf.push_str(&pre);
@@ -1317,7 +1409,8 @@ fn main() {
 			if !*d {
 				let e = &r.edits[k];
 				// edits outside the rendered ranges (e.g. attrs on unselected methods) are fine
-				if ranges.iter().any(|(a, b)| e.start >= *a && e.end <= *b) {
+				let nested = r.edits.iter().enumerate().any(|(j, o)| j != k && r.done[j] && o.start <= e.start && e.end <= o.end && (o.end - o.start) > (e.end - e.start));
+				if !nested && ranges.iter().any(|(a, b)| e.start >= *a && e.end <= *b) {
 					die(&format!("internal: edit {:?} at {}..{} not applied (overlap)", e.rule, e.start, e.end));
 				}
 			}
